@@ -42,12 +42,6 @@ EXPECTED = {
     ("parse::Parser::skip_spaces", "peek", 1): {("skip",): "0x0a", ("back",): "0x00-0x09 0x0b-0xff"},
     ("parse::Parser::read", "peek", 0): {("return",): "0x00", ("next",): "0x0a", ("skip_comment",): "'#'", ("parse_error",): "0x09 ' '", ("read_ident",): "0x01-0x08 0x0b-0x1f '!'-'\"' '$'-0xff"},
     ("parse::Parser::read_unevaluated_paths_to", "peek", 0): {("return",): "0x0a ':' '|'", ("read_eval",): "0x00-0x09 0x0b-'9' ';'-'{' '}'-0xff"},
-    ("parse::Parser::read_build", "peek", 0): {("next",): "'|'", ("expect",): "0x00-'{' '}'-0xff"},
-    ("parse::Parser::read_build", "peek", 1): {("next",): "'|'", ("len",): "0x00-'{' '}'-0xff"},
-    ("parse::Parser::read_build", "peek", 2): {("back",): "'@' '|'", ("read_unevaluated_paths_to",): "0x00-'?' 'A'-'{' '}'-0xff"},
-    ("parse::Parser::read_build", "peek", 3): {("next",): "'|'", ("len",): "0x00-'{' '}'-0xff"},
-    ("parse::Parser::read_build", "peek", 4): {("back",): "'@'", ("expect",): "0x00-'?' 'A'-0xff"},
-    ("parse::Parser::read_build", "peek", 5): {("next",): "'|'", ("len",): "0x00-'{' '}'-0xff"},
     ("parse::Parser::read_scoped_vars", "peek", 0): {("skip_spaces",): "' '", ("return",): "0x00-0x1f '!'-0xff"},
     ("parse::Parser::read_vardef", "peek", 0): {("expect",): "0x0a", ("read_eval",): "0x00-0x09 0x0b-0xff"},
 }
@@ -179,6 +173,23 @@ def counts(ck, ctx):
     ok4 = Q.gated(cfg, S_in[3], gate_of(ord("@")))[0]
     okc = Q.gated(cfg, S_in[0], gate_of(ord(":")))[0]
     ck.ob("counts", "separators", ok3 and ok4 and okc, "inputs start after expect(':'); the order-only section follows expect('|') (second bar), the validation section follows expect('@')", span=b.loc, fn=b.nname)
+    # how each optional section is entered, as facts about the scanner position (which byte was consumed last, which byte is next)
+    # on *every* path to the section's read -- independent of how the `|` tests are spelled or factored into helpers
+    from n2sa.byteclass import ByteClass
+    bc = ByteClass(F, b, cfg)
+    BAR, AT = ord("|"), ord("@")
+
+    def only(x, chars):
+        return x is not None and x <= frozenset(chars) and bool(x)
+
+    ent = {
+        "implicit-outs": (S_out[1], only(bc.last_at(S_out[1]), [BAR]), True),
+        "implicit-ins": (S_in[1], only(bc.last_at(S_in[1]), [BAR]), bc.possible_at(S_in[1]) is not None and not (bc.possible_at(S_in[1]) & {BAR, AT})),
+        "order-only-ins": (S_in[2], only(bc.last_at(S_in[2]), [BAR]), True),
+        "validation-ins": (S_in[3], only(bc.last_at(S_in[3]), [AT]), True),
+    }
+    for name, (bb_, ok_last, ok_cur) in ent.items():
+        ck.ob("counts", "section-entry|" + name, ok_last and ok_cur and not bc.capped, "the %s section is read only right after consuming its separator%s (last consumed byte %s)" % (name, " and never when a second `|` or `@` follows (that bar belongs to `||` / `|@`)" if name == "implicit-ins" else "", sorted(chr(x) for x in (bc.last_at(bb_) or [])) if bc.last_at(bb_) is not None and len(bc.last_at(bb_)) < 5 else "unconstrained"), span=b.blocks[bb_]["term"]["loc"], fn=b.nname)
     nl = gate_of(10)
     ck.ob("counts", "ends-with-newline", bool(nl) and all(Q.gated(cfg, bb, nl)[0] for _, bb, s in cons), "the build line must end with a newline before its bindings are read", span=b.loc, fn=b.nname)
 
@@ -355,7 +366,7 @@ def statements(ck, ctx):
 
 def run(ck, ctx):
     n = byte_classes(ck, ctx)
-    ck.floor("byte-dispatch sites in parse.rs", n, 19)
+    ck.floor("byte-dispatch sites in parse.rs", n, 13)
     counts(ck, ctx)
     mapping(ck, ctx)
     ACC.accessors(ck, ctx)
